@@ -49,6 +49,25 @@ def run(ctx):
                            "row write (every row of the mapping is written: no byte left NUL)")
         stats_every_record(ctx, "C14.O")
     mmap_open_rule(ctx)
+    # file size == header + records x row length needs the mapped file truncated and re-sized on every run
+    from . import c17, c15
+    c17.open_rules(dep(ctx, "C14", "C17"))
+    # fixed-width rows assume finite values: the divisor guard (max(1, total)) is part of this property's argument
+    fo = ctx.view("composition::oligo::OligoComputer::vectorise_one")
+    if fo is not None:
+        acc_family(dep(ctx, "C14", "C04"), "C04.A", fo, "composition::oligo::vectorise_one", ("param", param_index(fo, "seq")), SF("norm"))
+    # every row is written only if at least one worker is spawned: the CLI must not hand 0 to set_threads
+    fcli = ctx.view(c15.CLI, c15.UNIT)
+    if fcli is not None:
+        c15.flow_rule(dep(ctx, "C14", "C15"), fcli)
+    fnew = ctx.view("composition::oligo::OligoComputer::new")
+    if fnew is not None:
+        lit = struct_literal(fnew, "composition::oligo::OligoComputer")
+        t = struct_fields(fnew, lit).get("threads") if lit else None
+        ctx.check("C14.W", "OligoComputer::new:threads_default", t == ("call", "rayon::current_num_threads"),
+                  "default worker count = rayon::current_num_threads() (>= 1)",
+                  "default `threads` is `%s`; with 0 workers no row of the mapping is written" % (show(t) if t else "?"),
+                  line_of(lit) if lit else fnew.fn["sp"])
 
 
 def provenance_rule(ctx):
